@@ -73,6 +73,8 @@ func verifFwdBody(class, route, nonce string, rnd *rand.Rand) (body []byte, ct s
 		return mk(verifMiB+1, true), ct
 	case "json_3m":
 		return mk(3*verifMiB, true), ct
+	case "json_9m":
+		return mk(9*verifMiB+7, true), ct
 	}
 	return mk(100, true), ct
 }
@@ -91,8 +93,12 @@ func TestVerif_Forward(t *testing.T) {
 	rnd := rand.New(rand.NewSource(zzverif.Seed()))
 	var rndMu sync.Mutex
 	var phase1 atomic.Bool
-	for _, engine := range []string{"sherpa", "olla"} {
-		opts := []verifEndpointOpt{{Models: []string{"m1"}}, {Models: []string{"m1"}}}
+	type variant struct{ engine, eptype string }
+	// the fourth and fifth stack have backends with native Anthropic support: the Anthropic route is served in
+	// passthrough mode there (route "anthropic_pt": same conversation and model, the client's query kept)
+	for _, vr := range []variant{{"sherpa", ""}, {"olla", ""}, {"sherpa", "vllm"}, {"olla", "vllm"}} {
+		engine := vr.engine
+		opts := []verifEndpointOpt{{Models: []string{"m1"}, Type: vr.eptype}, {Models: []string{"m1"}, Type: vr.eptype}}
 		stk, err := verifBoot(engine, "round-robin", "auto", opts, nil)
 		if err != nil {
 			t.Fatalf("boot: %v", err)
@@ -110,7 +116,9 @@ func TestVerif_Forward(t *testing.T) {
 					"len", len(r.Body), "nonce", verifNonceRe.FindString(string(r.Body)), "model", model)
 				// every third request meets a connection reset on its first attempt: the failover attempt must
 				// carry the same request
-				if phase1.Load() && r.Attempt == 1 && strings.HasSuffix(r.ReqID, "3") {
+				// ... and so does every request with a body of a MiB or more (whatever is buffered for the replay
+				// must be all of it)
+				if phase1.Load() && r.Attempt == 1 && (strings.HasSuffix(r.ReqID, "3") || len(r.Body) >= verifMiB-1) {
 					return zzverif.Plan{Kind: "reset_pre"}
 				}
 				if strings.Contains(r.Target, "chat/completions") && strings.Contains(string(r.Body), `"max_tokens"`) {
@@ -122,7 +130,10 @@ func TestVerif_Forward(t *testing.T) {
 		var seq atomic.Int64
 		phase1.Store(true)
 		one := func(sc verifFwdScn) {
-			id := fmt.Sprintf("%s-%d", engine, seq.Add(1))
+			if vr.eptype != "" && sc.Route != "anthropic" {
+				return
+			}
+			id := fmt.Sprintf("%s%s-%d", engine, vr.eptype, seq.Add(1))
 			nonce := "nonce-" + strings.ReplaceAll(id, "-", "")
 			rndMu.Lock()
 			body, ct := verifFwdBody(sc.Body, sc.Route, nonce, rnd)
@@ -151,10 +162,14 @@ func TestVerif_Forward(t *testing.T) {
 				model = ""
 			}
 			upRest := rest
+			routeName := sc.Route
 			if sc.Route == "anthropic" {
 				upRest = "/v1/chat/completions"
+				if vr.eptype != "" {
+					upRest, routeName = "/v1/messages", "anthropic_pt"
+				}
 			}
-			tr.Emit("ClientSend", "r", id, "route", sc.Route, "method", sc.Method, "rest", upRest, "query", sc.Query,
+			tr.Emit("ClientSend", "r", id, "route", routeName, "method", sc.Method, "rest", upRest, "query", sc.Query,
 				"sha", hex.EncodeToString(sum[:])[:16], "len", len(body), "lenmode", sc.LenMode, "nonce", verifNonceRe.FindString(string(body)), "model", model, "class", sc.Body)
 			res := zzverif.Do(stk.addr, &zzverif.Req{Method: sc.Method, Target: target, Headers: hdrs, Body: body,
 				Chunked: sc.LenMode == "chunked" && len(body) > 0, ChunkSz: 64 << 10, Timeout: 30 * time.Second})
@@ -163,7 +178,7 @@ func TestVerif_Forward(t *testing.T) {
 				st = 0
 			}
 			tr.Emit("ClientDone", "r", id, "st", st)
-			if phase1.Load() && strings.HasSuffix(id, "3") {
+			if phase1.Load() && (strings.HasSuffix(id, "3") || len(body) >= verifMiB-1) {
 				stk.healthRound() // the reset marked that endpoint offline; readmit it
 			}
 		}
@@ -175,7 +190,7 @@ func TestVerif_Forward(t *testing.T) {
 		// phase 2: waves of concurrent requests (distinct bodies), big ones left out to keep waves dense
 		small := []verifFwdScn{}
 		for _, sc := range scns {
-			if sc.Body != "json_3m" && sc.Body != "json_1m_plus" && sc.Body != "json_1m" && sc.Body != "json_1m_minus" {
+			if sc.Body != "json_9m" && sc.Body != "json_3m" && sc.Body != "json_1m_plus" && sc.Body != "json_1m" && sc.Body != "json_1m_minus" {
 				small = append(small, sc)
 			}
 		}
